@@ -1,7 +1,888 @@
-//! C17 engine (not yet built).
-use crate::common::{CaseWriter, Opts};
+//! C17 — source text is never lost and reported positions are accurate.
+//!
+//! engines (selected by `opts.engine`):
+//! * `c17`    — `Source::map_source_locations` on generated texts (ASCII / multi-byte / CRLF mixes) at
+//!              every character boundary, in tuples (unsorted, repeated, invalid) → `loc.map`
+//!              (model + reference); synthetic trace frames with arbitrary spans rendered by
+//!              `CompactFormat` → `loc.frame` (model of `print_code_location`) and `loc.start`
+//!              (reference start line/column); programs with an `error`, `assert`, failing call or
+//!              syntax error planted at a known offset, evaluated in-process → `loc.start`;
+//!              `std.trace` planted at a known offset, location taken the way `StdTracePrinter`
+//!              takes it → `loc.line`.
+//! * `c17lex` — lexer ranges / rowan tree text on token soups, random strings and mutated programs
+//!              → `lex.tile` (observation); spans of the parsed IR → `ast.spans` (observation).
+//! * `c17cli` — the `jrsonnet` binary on planted programs: `TRACE: file:line` and the error trace on
+//!              stderr → `loc.line` / `loc.start`.
+use std::{collections::BTreeMap, rc::Rc};
+
+use jrsonnet_evaluator::{
+	error::{Error, ErrorKind, StackTraceElement},
+	function::CallLocation,
+	trace::{CompactFormat, PathResolver, TraceFormat},
+	State,
+};
+use jrsonnet_interner::IStr;
+use jrsonnet_ir::{Source, Span};
+use jrsonnet_stdlib::TracePrinter;
+use serde_json::{json, Value};
+
+use crate::common::{guarded, CaseWriter, Opts, Rng};
+
+fn cps(s: &str) -> Vec<u32> {
+	s.chars().map(|c| c as u32).collect()
+}
+
+fn boundaries(s: &str) -> Vec<u32> {
+	let mut v: Vec<u32> = s.char_indices().map(|(i, _)| i as u32).collect();
+	v.push(s.len() as u32);
+	v
+}
+
+const ALPHA: &[&str] = &[
+	"a", "b", "z", "x", "0", " ", " ", "\t", "\n", "\n", "\n", "\r\n", "\r\n", "\r", "é", "ß", "€", "中",
+	"😀", "\u{301}", "\u{2028}", "\u{85}", "\"", "/", "#", "|",
+];
+const ASCII_ALPHA: &[&str] = &["a", "b", "z", " ", "\t", "\n", "\n", "\r\n", "0", "\"", "#"];
+
+fn gen_text(rng: &mut Rng, maxlen: usize) -> String {
+	let n = rng.below(maxlen + 1);
+	let ascii = rng.chance(1, 5);
+	let mut s = String::new();
+	for _ in 0..n {
+		let t: &str = if ascii { *rng.pick(ASCII_ALPHA) } else { *rng.pick(ALPHA) };
+		s.push_str(t);
+	}
+	s
+}
+
+fn source(text: &str) -> Source {
+	Source::new_virtual("V".into(), text.into())
+}
+
+fn map(src: &Source, offs: &[u32]) -> Vec<jrsonnet_ir::CodeLocation> {
+	match offs.len() {
+		0 => src.map_source_locations::<0>(&[]).to_vec(),
+		1 => src.map_source_locations(&[offs[0]]).to_vec(),
+		2 => src.map_source_locations(&[offs[0], offs[1]]).to_vec(),
+		3 => src.map_source_locations(&[offs[0], offs[1], offs[2]]).to_vec(),
+		4 => src.map_source_locations(&[offs[0], offs[1], offs[2], offs[3]]).to_vec(),
+		_ => src
+			.map_source_locations(&[offs[0], offs[1], offs[2], offs[3], offs[4]])
+			.to_vec(),
+	}
+}
+
+fn ascii_prefix(text: &str, at: usize) -> bool {
+	let b = text.as_bytes();
+	let mut i = at;
+	while i > 0 && b[i - 1] != b'\n' {
+		i -= 1;
+		if b[i] >= 0x80 {
+			return false;
+		}
+	}
+	true
+}
+
+/// `L:C`, `L:C-C2`, `L:C-L2:C2` → (L, C)
+fn parse_start(loc: &str) -> Option<(u64, u64)> {
+	let mut it = loc.split(|c| c == ':' || c == '-');
+	let l = it.next()?.parse().ok()?;
+	let c = it.next()?.parse().ok()?;
+	Some((l, c))
+}
+
+/// frames of a CompactFormat rendering: (location text, description)
+fn frames(rendered: &str, prefix: &str) -> Vec<(String, String)> {
+	let mut out = Vec::new();
+	for line in rendered.lines().skip(1) {
+		let t = line.trim_start();
+		if let Some(rest) = t.strip_prefix(prefix) {
+			let (loc, desc) = match rest.find(' ') {
+				Some(i) => (&rest[..i], rest[i..].trim_start()),
+				None => (rest, ""),
+			};
+			out.push((loc.trim_end_matches(':').to_string(), desc.to_string()));
+		}
+	}
+	out
+}
+
+fn compact() -> CompactFormat {
+	CompactFormat {
+		resolver: PathResolver::FileName,
+		max_trace: 20,
+		padding: 4,
+	}
+}
+
+fn start_json(text: &str, at: usize, got: Option<(u64, u64)>) -> Value {
+	match got {
+		None => json!("no-location"),
+		Some((l, c)) => {
+			if ascii_prefix(text, at) {
+				json!([l, c])
+			} else {
+				json!([l, null])
+			}
+		}
+	}
+}
+
+// ---------------------------------------------------------------------------------------------
+// loc.map / loc.frame on generated texts
+
+fn gen_queries(rng: &mut Rng, text: &str) -> Vec<Vec<u32>> {
+	let bs = boundaries(text);
+	let len = text.len() as u32;
+	let mut qs: Vec<Vec<u32>> = bs.iter().map(|b| vec![*b]).collect();
+	qs.push(vec![]);
+	qs.push(vec![0, len]);
+	qs.push(vec![len, 0]);
+	qs.push(vec![len, len]);
+	for _ in 0..6 {
+		let k = 2 + rng.below(4);
+		let mut q = Vec::new();
+		for _ in 0..k {
+			if !q.is_empty() && rng.chance(1, 5) {
+				let d = *rng.pick(&q);
+				q.push(d);
+			} else {
+				q.push(*rng.pick(&bs));
+			}
+		}
+		qs.push(q);
+	}
+	// not on a character boundary / past the end: the model must still say what the code does
+	let non: Vec<u32> = (0..=len + 2).filter(|o| !bs.contains(o)).collect();
+	if !non.is_empty() {
+		for _ in 0..2 {
+			let mut q = vec![*rng.pick(&non)];
+			if rng.chance(1, 2) {
+				q.push(*rng.pick(&bs));
+			}
+			if rng.chance(1, 2) {
+				q.insert(0, *rng.pick(&bs));
+			}
+			qs.push(q);
+		}
+	}
+	qs
+}
+
+/// queries whose offsets are all character boundaries go into one case (model + reference);
+/// the others into a second one (model only: no reference meaning for such offsets)
+fn loc_map_case(w: &mut CaseWriter, text: &str, qs: &[Vec<u32>]) {
+	let bs = boundaries(text);
+	let (valid, invalid): (Vec<Vec<u32>>, Vec<Vec<u32>>) =
+		qs.iter().cloned().partition(|q| q.iter().all(|o| bs.contains(o)));
+	loc_map_case1(w, text, &valid, "valid");
+	if !invalid.is_empty() {
+		loc_map_case1(w, text, &invalid, "invalid");
+	}
+}
+
+fn loc_map_case1(w: &mut CaseWriter, text: &str, qs: &[Vec<u32>], via: &str) {
+	let src = source(text);
+	let r = guarded(|| {
+		let mut locs = Vec::new();
+		let mut lines = Vec::new();
+		for q in qs {
+			let l = map(&src, q);
+			lines.push(l.iter().map(|x| x.line).collect::<Vec<_>>());
+			locs.push(
+				l.iter()
+					.map(|x| vec![x.offset, x.line, x.column, x.line_start_offset, x.line_end_offset])
+					.collect::<Vec<_>>(),
+			);
+		}
+		(locs, lines)
+	});
+	let ans = match r {
+		Ok((locs, lines)) => json!({"locs": locs, "lines": lines}),
+		Err(p) => json!({"panic": p}),
+	};
+	w.case(
+		json!({"op":"loc.map","via":via,"text":cps(text),"queries":qs,"size":text.chars().count(),"_src":text}),
+		ans,
+	);
+}
+
+fn synth_error(src: &Source, spans: &[(u32, u32)]) -> Error {
+	let mut e = Error::new(ErrorKind::RuntimeError("x".into()));
+	for (a, b) in spans {
+		e.trace_mut().0.push(StackTraceElement {
+			location: Some(Span(src.clone(), *a, *b)),
+			desc: "D".to_string(),
+		});
+	}
+	e
+}
+
+fn loc_frame_case(w: &mut CaseWriter, rng: &mut Rng, text: &str) {
+	let bs = boundaries(text);
+	let mut spans: Vec<(u32, u32)> = Vec::new();
+	for _ in 0..8 {
+		let i = rng.below(bs.len());
+		let cap = if rng.chance(1, 2) { 4 } else { 64 };
+		let j = i + rng.below((bs.len() - i).min(cap));
+		spans.push((bs[i], bs[j]));
+	}
+	let src = source(text);
+	let r = guarded(|| compact().format(&synth_error(&src, &spans)).expect("fmt"));
+	let sp: Vec<Vec<u32>> = spans.iter().map(|(a, b)| vec![*a, *b]).collect();
+	let ats: Vec<u32> = spans.iter().map(|(a, _)| *a).collect();
+	match r {
+		Ok(rendered) => {
+			let fr = frames(&rendered, "virtual:V:");
+			let printed: Vec<&str> = fr.iter().map(|f| f.0.as_str()).collect();
+			w.case(
+				json!({"op":"loc.frame","text":cps(text),"spans":sp,"size":text.chars().count(),"_src":text}),
+				json!({"printed": printed}),
+			);
+			let starts: Vec<Value> = spans
+				.iter()
+				.enumerate()
+				.map(|(k, (a, _))| {
+					start_json(text, *a as usize, fr.get(k).and_then(|f| parse_start(&f.0)))
+				})
+				.collect();
+			w.case(
+				json!({"op":"loc.start","via":"frame","text":cps(text),"at":ats,"size":text.chars().count(),"_src":text}),
+				json!({"start": starts, "_rendered": rendered}),
+			);
+		}
+		Err(p) => w.case(
+			json!({"op":"loc.frame","text":cps(text),"spans":sp,"size":text.chars().count(),"_src":text}),
+			json!({"panic": p}),
+		),
+	}
+}
+
+// ---------------------------------------------------------------------------------------------
+// planted programs
+
+const FILLER: &[&str] = &[
+	"// plain comment\n",
+	"// commentaire accentué éèà\n",
+	"# 中文 comment 😀\n",
+	"\n",
+	"\r\n",
+	"   \t\n",
+	"/* block\n   é multi-line\n*/\n",
+	"/* ascii block */\n",
+	"local s%d = \"ééééééééé\";\n",
+	"local s%d = \"plain\";\r\n",
+	"local s%d = 'x€y😀z';\n",
+	"local s%d = |||\n  text é block\n  second 中 line\n|||;\n",
+	"local s%d = [1, 2,\n  3];\n",
+	"local s%d = { a: 1, \"ключ\": 2 };\n",
+];
+const LINE_PREFIX: &[&str] = &[
+	"",
+	"",
+	"  ",
+	"\t",
+	"local q = 1; ",
+	"/* c */ ",
+	"/* é */ ",
+	"local e_s = \"é\"; ",
+	"local w = \"ü😀\"; ",
+	"local w = 'a'; \t",
+];
+const SUFFIX: &[&str] = &["", "\n", "\r\n", "\n// trailing é\n", " // same line é", "\n\n/* 😀 */", " # 中"];
+
+#[derive(Clone, Copy, Debug, PartialEq, Eq)]
+enum Plant {
+	Error,
+	Assert,
+	ObjAssert,
+	Call,
+	Syntax,
+	SyntaxEof,
+	Trace,
+	Field,
+}
+
+struct Planted {
+	text: String,
+	/// (frame description to look for, byte offset the frame must start at)
+	expect: Vec<(&'static str, usize)>,
+	kind: Plant,
+	nonascii_before: bool,
+	nonascii_on: bool,
+	crlf: bool,
+}
+
+fn gen_planted(rng: &mut Rng, kind: Plant) -> Planted {
+	let mut text = String::new();
+	let mut expect = Vec::new();
+	let mut n = 0;
+	// definition used by the Call plant sits in the filler region: its body is a second known spot
+	let nfill = rng.below(6);
+	let def_at = rng.below(nfill + 1);
+	for i in 0..=nfill {
+		if kind == Plant::Call && i == def_at {
+			let pre = *rng.pick(&["", "  ", "/* é */ "]);
+			text.push_str(pre);
+			text.push_str("local boom(x) = ");
+			if rng.chance(1, 2) {
+				text.push_str("\n   ");
+			}
+			expect.push(("error statement", text.len()));
+			text.push_str("error 'in callee';\n");
+		}
+		if i < nfill {
+			let f = rng.pick(FILLER).replace("%d", &n.to_string());
+			n += 1;
+			text.push_str(&f);
+		}
+	}
+	let before_len = text.len();
+	let prefix = *rng.pick(LINE_PREFIX);
+	text.push_str(prefix);
+	let at = text.len();
+	let multi = rng.chance(1, 3);
+	let nl = if rng.chance(1, 3) { "\r\n" } else { "\n" };
+	match kind {
+		Plant::Error => {
+			expect.push(("error statement", at));
+			if multi {
+				text.push_str(&format!("error{nl}  \"boom é\" +{nl}  \"x\""));
+			} else {
+				text.push_str("error \"boom é\"");
+			}
+		}
+		Plant::Assert => {
+			text.push_str("assert ");
+			if multi {
+				text.push_str(nl);
+				text.push_str("    ");
+			}
+			expect.push(("assertion failure", text.len()));
+			text.push_str("1 == 2 : \"mé\"; 3");
+		}
+		Plant::ObjAssert => {
+			text.push_str("{ ");
+			if multi {
+				text.push_str(nl);
+				text.push_str("  ");
+			}
+			text.push_str("assert ");
+			expect.push(("assertion failure", text.len()));
+			text.push_str("self.a == 2 : 'ü', a: 1 }");
+		}
+		Plant::Call => {
+			// the call frame is labelled with the argument list `(…)`
+			expect.push(("function <boom> call", at + "boom".len()));
+			if multi {
+				text.push_str(&format!("boom({nl}  1{nl})"));
+			} else {
+				text.push_str("boom(1)");
+			}
+		}
+		Plant::Syntax => {
+			// (text, offset of the token the parser cannot accept)
+			let (t, d) = *rng.pick(&[(")", 0), ("]", 0), ("}", 0), ("local = 3; 1", 6), ("1 1", 2), ("[1, 2 3]", 6)]);
+			text.push_str("local ok = 1; ");
+			expect.push(("<syntax>", text.len() + d));
+			text.push_str(t);
+		}
+		Plant::SyntaxEof => {
+			// input ends where an operand is required: the error is reported at the end of the text
+			// (which never ends in a newline here), possibly right after a multi-byte character
+			let t = *rng.pick(&["1 +", "1 + // é", "[1, 2", "{ a: 1, // 中\n  b: /* 😀 */", "local z = /* é*/", "f(1, 2 #ü"]);
+			text.push_str("local ok = 1; ");
+			text.push_str(t);
+			expect.push(("<syntax>", text.len()));
+		}
+		Plant::Trace => {
+			expect.push(("<trace>", at));
+			if multi {
+				text.push_str(&format!("std.trace({nl}  \"mé\",{nl}  1)"));
+			} else {
+				text.push_str("std.trace(\"mé\", 1)");
+			}
+		}
+		Plant::Field => {
+			text.push_str("{ ");
+			if multi {
+				text.push_str(nl);
+				text.push_str("  ");
+			}
+			text.push_str("a: 1, b: ");
+			expect.push(("error statement", text.len()));
+			text.push_str("error 'fé' }.b");
+		}
+	}
+	if kind != Plant::SyntaxEof {
+		text.push_str(*rng.pick(SUFFIX));
+	}
+	let before = &text[..before_len];
+	Planted {
+		nonascii_before: !before.is_ascii(),
+		nonascii_on: !prefix.is_ascii(),
+		crlf: before.contains("\r\n"),
+		text,
+		expect,
+		kind,
+	}
+}
+
+#[derive(jrsonnet_gcmodule::Acyclic)]
+struct CapturePrinter(std::cell::RefCell<Vec<Option<usize>>>);
+impl TracePrinter for CapturePrinter {
+	fn print_trace(&self, loc: CallLocation, _value: IStr) {
+		// exactly what StdTracePrinter::print_trace does with the location
+		let line = loc.0.map(|l| l.0.map_source_locations(&[l.1])[0].line);
+		self.0.borrow_mut().push(line);
+	}
+}
+
+fn new_state_with(printer: Rc<dyn TracePrinter>) -> State {
+	let mut s = State::builder();
+	let ci = jrsonnet_stdlib::ContextInitializer::new(PathResolver::new_cwd_fallback());
+	ci.settings_mut().trace_printer = printer;
+	s.context_initializer(ci)
+		.import_resolver(jrsonnet_evaluator::FileImportResolver::default());
+	s.build()
+}
+
+fn rendered_error(s: &State, text: &str) -> Result<Option<String>, String> {
+	guarded(|| {
+		let r = s
+			.evaluate_snippet("V".to_owned(), text.to_owned())
+			.and_then(|v| v.manifest(jrsonnet_evaluator::manifest::JsonFormat::minify()));
+		match r {
+			Ok(_) => None,
+			Err(e) => Some(compact().format(&e).expect("fmt")),
+		}
+	})
+}
+
+/// location text of the frame looked for: for "<syntax>" the one line below the message
+fn find_frame(rendered: &str, desc: &str) -> Option<(u64, u64)> {
+	if desc == "<syntax>" {
+		let l = rendered.lines().nth(1)?.trim();
+		let loc = l.strip_prefix("virtual:V:")?;
+		return parse_start(loc);
+	}
+	frames(rendered, "virtual:V:")
+		.iter()
+		.find(|f| f.1 == desc)
+		.and_then(|f| parse_start(&f.0))
+}
+
+fn planted_case(w: &mut CaseWriter, s: &State, cap: &CapturePrinter, p: &Planted) {
+	let ats: Vec<usize> = p.expect.iter().map(|e| e.1).collect();
+	let size = p.text.chars().count();
+	if p.kind == Plant::Trace {
+		cap.0.borrow_mut().clear();
+		let r = guarded(|| s.evaluate_snippet("V".to_owned(), p.text.clone()).map(|_| ()));
+		let got = cap.0.borrow().clone();
+		let ans = match (r, got.first()) {
+			(Ok(Ok(())), Some(Some(l))) => json!({"line":[l]}),
+			(Ok(Ok(())), _) => json!({"line":["no-trace"]}),
+			(Ok(Err(e)), _) => json!({"line":[format!("error: {}", e.error())]}),
+			(Err(pn), _) => json!({"panic": pn}),
+		};
+		w.case(
+			json!({"op":"loc.line","via":"std.trace","text":cps(&p.text),"at":ats,"size":size,"_src":p.text}),
+			ans,
+		);
+		return;
+	}
+	let ans = match rendered_error(s, &p.text) {
+		Ok(Some(rendered)) => {
+			let starts: Vec<Value> = p
+				.expect
+				.iter()
+				.map(|(d, at)| start_json(&p.text, *at, find_frame(&rendered, d)))
+				.collect();
+			json!({"start": starts, "_rendered": rendered})
+		}
+		Ok(None) => json!({"start": ["no-error"]}),
+		Err(pn) => json!({"panic": pn}),
+	};
+	w.case(
+		json!({"op":"loc.start","via":format!("{:?}", p.kind),"text":cps(&p.text),"at":ats,"size":size,"_src":p.text}),
+		ans,
+	);
+}
+
+const KINDS: &[Plant] = &[
+	Plant::Error,
+	Plant::Assert,
+	Plant::ObjAssert,
+	Plant::Call,
+	Plant::Syntax,
+	Plant::SyntaxEof,
+	Plant::Trace,
+	Plant::Field,
+];
+
+fn run_loc(opts: &Opts) {
+	let mut w = CaseWriter::new(&opts.out);
+	let mut rng = Rng::new(opts.seed);
+	let mut hist = BTreeMap::<String, usize>::new();
+	let mut bump = |k: &str| *hist.entry(k.to_string()).or_default() += 1;
+
+	// fixed witnesses first (the theorems' counterexamples / non-vacuity examples are replayed here)
+	let fixed: &[&str] = &[
+		"",
+		"\n",
+		"a",
+		"é",
+		"\"ééééééééé\" +\n error \"boom\"",
+		"hello world\n_______________________________________________________",
+		"a\r\nb\r\n",
+		"😀\n😀",
+		"\n\n\n",
+		"é\né\né",
+	];
+	for t in fixed {
+		let qs = gen_queries(&mut rng, t);
+		loc_map_case(&mut w, t, &qs);
+		loc_frame_case(&mut w, &mut rng, t);
+		bump("text.fixed");
+	}
+	let n_text = if opts.thorough() { 12000 } else { 1500 };
+	for i in 0..n_text {
+		let maxlen = if i % 10 == 0 { 120 } else { 24 };
+		let t = gen_text(&mut rng, maxlen);
+		bump(if t.is_ascii() { "text.ascii" } else { "text.multibyte" });
+		if t.contains("\r\n") {
+			bump("text.crlf");
+		}
+		let qs = gen_queries(&mut rng, &t);
+		loc_map_case(&mut w, &t, &qs);
+		loc_frame_case(&mut w, &mut rng, &t);
+	}
+
+	// planted programs, in-process
+	let cap = Rc::new(CapturePrinter(Default::default()));
+	let s = new_state_with(cap.clone());
+	let _g = s.enter();
+	let n_plant = if opts.thorough() { 20000 } else { 2500 };
+	for i in 0..n_plant {
+		let kind = KINDS[i % KINDS.len()];
+		let p = gen_planted(&mut rng, kind);
+		bump(&format!("plant.{:?}", p.kind));
+		if p.nonascii_before {
+			bump("plant.nonascii_before");
+		}
+		if p.nonascii_on {
+			bump("plant.nonascii_on_line");
+		}
+		if p.crlf {
+			bump("plant.crlf_before");
+		}
+		planted_case(&mut w, &s, &cap, &p);
+	}
+	let meta = json!({
+		"engine":"c17","cases":w.n,"texts":n_text + fixed.len(),"planted":n_plant,"hist":hist,
+		"rule":"texts over {ASCII, tab, LF, CRLF, lone CR, 2/3/4-byte chars, combining mark, U+2028, U+0085} up to 120 chars: map_source_locations at every character boundary singly and in tuples of 2..5 (unsorted, repeated, off-boundary, past the end) vs model and reference; 8 synthetic trace frames per text rendered by CompactFormat vs print model and reference start; programs with error / assert / object assert / failing call (callee + call site) / syntax error / std.trace / field error planted after comment, blank, CRLF, multi-byte filler lines and after ASCII or non-ASCII text on the same line"
+	});
+	w.finish(meta, &opts.out);
+}
+
+// ---------------------------------------------------------------------------------------------
+// lexer tiling / rowan losslessness / AST spans
+
+const TOKENS: &[&str] = &[
+	"local", "function", "if", "then", "else", "error", "assert", "self", "super", "$", "import",
+	"importstr", "importbin", "tailstrict", "in", "for", "null", "true", "false", "x", "_y1", "é",
+	"foo.bar", "0", "1.5", "1e10", "1e", "1.", "0x1", "1_000", "+", "-", "*", "/", "%", "==", "!=",
+	"<=", ">=", "<<", ">>", "&&", "||", "!", "~", "^", "&", "|", "=", ":", "::", ":::", "+:", ";", ",",
+	".", "(", ")", "[", "]", "{", "}", "??", "?.", "\"str\"", "\"esc \\n \\u00e9 \\\" é\"", "'s'",
+	"'it\\'s €'", "@\"v\"\"q\"", "@'v''q é'", "\"unterminated", "'unterminated é", "@\"unterminated",
+	"|||\n  text\n|||", "|||\n  é text\n   more 😀\n|||", "|||-\n\ttab\n\t|||", "|||\n\n  blank first\n\n  x\n|||",
+	"|||\nno indent\n|||", "||| x\n  a\n|||", "|||\n  unterminated é", "|||", "|||\n  a\n b\n|||",
+	"|||\r\n  crlf\r\n|||", "|||\n  é", "|||-", "|||\n  a\n  |||", "|||\n é\n é|||",
+	"// comment é", "# hash 中", "/* block é */", "/* multi\n line */", "/* unterminated é",
+	"/**/", "/*/", " ", "  ", "\t", "\n", "\r\n", "\r", "\u{a0}", "\u{2028}", "\u{feff}", "😀", "\u{301}",
+	"`", "\\", "\u{0}", "\u{7f}",
+];
+
+fn gen_soup(rng: &mut Rng) -> String {
+	let n = rng.below(14);
+	let mut s = String::new();
+	for _ in 0..n {
+		s.push_str(*rng.pick(TOKENS));
+		match rng.below(6) {
+			0 => {}
+			1 => s.push('\n'),
+			2 => s.push_str("  "),
+			_ => s.push(' '),
+		}
+	}
+	s
+}
+
+const PROGRAMS: &[&str] = &[
+	"local f(x, y=2) = x + y; { a: f(1), [\"b\" + \"é\"]: [i for i in [1, 2, 3] if i > 1], c+: { d: $.a } }",
+	"local é = \"ü\"; // 中文\n{\n  s: |||\n    text é\n  |||,\n  t: 'q' % [1],\n  assert self.s != '' : 'm',\n}",
+	"function(a, b) if a then b else error 'é' + std.toString(b)[1:2:1]",
+	"local a = import 'x.libsonnet', b = importstr \"é.txt\"; a { x: super.x, y:: 1, z::: 2 }.y tailstrict",
+	"/* lead é */ [1, 2.5e3, -1, !true, ~1, \"a\" in {a: 1}] # tail 😀\r\n",
+];
+
+fn mutate(rng: &mut Rng, p: &str) -> String {
+	let cs: Vec<char> = p.chars().collect();
+	let mut out: Vec<char> = cs.clone();
+	for _ in 0..1 + rng.below(3) {
+		if out.is_empty() {
+			break;
+		}
+		let i = rng.below(out.len());
+		match rng.below(4) {
+			0 => {
+				out.remove(i);
+			}
+			1 => out.insert(i, *rng.pick(&['é', '|', '"', '\n', '😀', '/', '*', '\'', '\\'])),
+			2 => out.truncate(i),
+			_ => {
+				let j = rng.below(out.len());
+				out.swap(i, j);
+			}
+		}
+	}
+	out.into_iter().collect()
+}
+
+fn extract_spans(dbg: &str) -> Vec<Vec<u32>> {
+	let mut out = Vec::new();
+	let pat = "virtual:V:";
+	let mut rest = dbg;
+	while let Some(i) = rest.find(pat) {
+		rest = &rest[i + pat.len()..];
+		let a: String = rest.chars().take_while(char::is_ascii_digit).collect();
+		let r2 = &rest[a.len()..];
+		if let Some(r3) = r2.strip_prefix('-') {
+			let b: String = r3.chars().take_while(char::is_ascii_digit).collect();
+			if let (Ok(a), Ok(b)) = (a.parse(), b.parse()) {
+				out.push(vec![a, b]);
+			}
+		}
+	}
+	out
+}
+
+fn lex_case(w: &mut CaseWriter, input: &str, origin: &str) -> (bool, usize) {
+	let size = input.chars().count();
+	let r = guarded(|| {
+		jrsonnet_lexer::Lexer::new(input)
+			.map(|l| vec![l.range.0, l.range.1])
+			.collect::<Vec<Vec<u32>>>()
+	});
+	let mut n = 0;
+	let mut ok = true;
+	match r {
+		Ok(ranges) => {
+			n = ranges.len();
+			w.case(
+				json!({"op":"lex.tile","origin":origin,"len":input.len(),"ranges":ranges,"text":cps(input),"size":size,"_src":input}),
+				json!({"ok": true}),
+			);
+		}
+		Err(p) => {
+			// a panic loses the text: a failed observation (these ranges never tile)
+			ok = false;
+			w.case(
+				json!({"op":"lex.tile","origin":origin,"len":input.len(),"ranges":[[0,0],[1,0]],"text":cps(input),"size":size,"_src":input,"_panic":p}),
+				json!({"panic": p}),
+			);
+		}
+	}
+	let t = guarded(|| {
+		let (file, _errors) = jrsonnet_rowan_parser::parse(input);
+		use jrsonnet_rowan_parser::AstNode;
+		file.syntax().to_string()
+	});
+	match t {
+		Ok(tree) => w.case(
+			json!({"op":"tree.text","origin":origin,"text":cps(input),"tree":cps(&tree),"size":size,"_src":input}),
+			json!({"ok": true}),
+		),
+		Err(p) => {
+			ok = false;
+			w.case(
+				json!({"op":"tree.text","origin":origin,"text":cps(input),"tree":null,"size":size,"_src":input}),
+				json!({"panic": p}),
+			);
+		}
+	}
+	(ok, n)
+}
+
+fn span_case(w: &mut CaseWriter, input: &str) -> Option<usize> {
+	let src = source(input);
+	let r = guarded(|| {
+		jrsonnet_ir_parser::parse(input, &jrsonnet_ir_parser::ParserSettings { source: src.clone() })
+			.map(|e| format!("{e:?}"))
+	});
+	match r {
+		Ok(Ok(dbg)) => {
+			let spans = extract_spans(&dbg);
+			let n = spans.len();
+			w.case(
+				json!({"op":"ast.spans","text":cps(input),"spans":spans,"size":input.chars().count(),"_src":input}),
+				json!({"ok": true}),
+			);
+			Some(n)
+		}
+		Ok(Err(_)) => None,
+		Err(p) => {
+			w.case(
+				json!({"op":"ast.spans","text":cps(input),"spans":[[1,0]],"size":input.chars().count(),"_src":input,"_panic":p}),
+				json!({"panic": p}),
+			);
+			None
+		}
+	}
+}
+
+fn run_lex(opts: &Opts) {
+	let mut w = CaseWriter::new(&opts.out);
+	let mut rng = Rng::new(opts.seed ^ 0x17);
+	let mut hist = BTreeMap::<String, usize>::new();
+	let mut tokens = 0usize;
+	let mut spans = 0usize;
+	let mut parsed = 0usize;
+	let n = if opts.thorough() { 40000 } else { 4000 };
+	for t in TOKENS {
+		let (_, k) = lex_case(&mut w, t, "token");
+		tokens += k;
+	}
+	for p in PROGRAMS {
+		lex_case(&mut w, p, "program");
+		if let Some(k) = span_case(&mut w, p) {
+			spans += k;
+			parsed += 1;
+		}
+	}
+	for i in 0..n {
+		let (input, origin) = match i % 4 {
+			0 | 1 => (gen_soup(&mut rng), "soup"),
+			2 => (gen_text(&mut rng, 30), "random"),
+			_ => {
+				let p = *rng.pick(PROGRAMS);
+				(mutate(&mut rng, p), "mutated")
+			}
+		};
+		*hist.entry(origin.to_string()).or_default() += 1;
+		let (_, k) = lex_case(&mut w, &input, origin);
+		tokens += k;
+		if let Some(k) = span_case(&mut w, &input) {
+			spans += k;
+			parsed += 1;
+		}
+	}
+	// valid planted programs give many spans
+	for i in 0..n / 4 {
+		let p = gen_planted(&mut rng, KINDS[i % KINDS.len()]);
+		if p.kind != Plant::Syntax && p.kind != Plant::SyntaxEof {
+			lex_case(&mut w, &p.text, "planted");
+			if let Some(k) = span_case(&mut w, &p.text) {
+				spans += k;
+				parsed += 1;
+			}
+		}
+	}
+	let meta = json!({
+		"engine":"c17lex","cases":w.n,"origin_hist":hist,"tokens_seen":tokens,"ir_parsed":parsed,"ast_spans_seen":spans,
+		"rule":"every entry of a 110-token vocabulary (keywords, operators, numbers, all string forms incl. unterminated, 17 text-block shapes incl. malformed/CRLF/multi-byte, comments, odd whitespace, stray bytes) alone; token soups of up to 14 of them; random strings; 1-3 character-level mutations of 5 programs; planted programs: Lexer ranges must tile [0,len) on char boundaries and rowan SourceFile text must equal the input; every span in the parsed IR must lie inside the text on char boundaries"
+	});
+	w.finish(meta, &opts.out);
+}
+
+// ---------------------------------------------------------------------------------------------
+// the jrsonnet binary
+
+fn run_cli(opts: &Opts) {
+	let mut w = CaseWriter::new(&opts.out);
+	let mut rng = Rng::new(opts.seed ^ 0x1717);
+	let bin = std::path::PathBuf::from(std::env::var("VERIF_BIN_DIR").unwrap_or_default()).join("jrsonnet");
+	let dir = opts.out.join("cli");
+	std::fs::create_dir_all(&dir).expect("mkdir");
+	let n = if opts.thorough() { 1400 } else { 210 };
+	let mut hist = BTreeMap::<String, usize>::new();
+	for i in 0..n {
+		let kind = KINDS[i % KINDS.len()];
+		let p = gen_planted(&mut rng, kind);
+		*hist.entry(format!("{:?}", p.kind)).or_default() += 1;
+		let file = dir.join("p.jsonnet");
+		std::fs::write(&file, &p.text).expect("write");
+		let outp = std::process::Command::new(&bin).arg(&file).output();
+		let ats: Vec<usize> = p.expect.iter().map(|e| e.1).collect();
+		let size = p.text.chars().count();
+		let stderr = match outp {
+			Ok(o) => String::from_utf8_lossy(&o.stderr).into_owned(),
+			Err(e) => {
+				w.case(
+					json!({"op":"loc.line","via":"cli","text":cps(&p.text),"at":ats,"size":size}),
+					json!({"spawn": e.to_string()}),
+				);
+				continue;
+			}
+		};
+		if p.kind == Plant::Trace {
+			// TRACE: <path>:<line> <msg>
+			let line = stderr.lines().find_map(|l| {
+				let r = l.strip_prefix("TRACE: ")?;
+				let r = r.strip_suffix(" mé")?;
+				r.rsplit(':').next()?.parse::<u64>().ok()
+			});
+			w.case(
+				json!({"op":"loc.line","via":"cli","text":cps(&p.text),"at":ats,"size":size,"_src":p.text}),
+				match line {
+					Some(l) => json!({"line":[l], "_stderr": stderr}),
+					None => json!({"line":["no-trace"], "_stderr": stderr}),
+				},
+			);
+		} else {
+			// frames: "    <path>:LOC: desc" ; syntax error: second line "    <path>:LOC"
+			let path_s = file.to_string_lossy().to_string();
+			let mut found: Vec<(String, String)> = Vec::new();
+			for l in stderr.lines().skip(1) {
+				let t = l.trim_start();
+				if let Some(i) = t.find("p.jsonnet:") {
+					let rest = &t[i + "p.jsonnet:".len()..];
+					let (loc, desc) = match rest.find(' ') {
+						Some(i) => (&rest[..i], rest[i..].trim_start()),
+						None => (rest, ""),
+					};
+					found.push((loc.trim_end_matches(':').to_string(), desc.to_string()));
+				}
+			}
+			let _ = path_s;
+			let starts: Vec<Value> = p
+				.expect
+				.iter()
+				.map(|(d, at)| {
+					let got = if *d == "<syntax>" {
+						found.first().and_then(|f| parse_start(&f.0))
+					} else {
+						found.iter().find(|f| f.1 == *d).and_then(|f| parse_start(&f.0))
+					};
+					start_json(&p.text, *at, got)
+				})
+				.collect();
+			w.case(
+				json!({"op":"loc.start","via":format!("cli.{:?}", p.kind),"text":cps(&p.text),"at":ats,"size":size,"_src":p.text}),
+				json!({"start": starts, "_stderr": stderr}),
+			);
+		}
+	}
+	let meta = json!({"engine":"c17cli","cases":w.n,"hist":hist,
+		"rule":"planted programs (same generator as c17) written to a file and run through the jrsonnet binary: line of `TRACE: file:line` (StdTracePrinter) and start line/column of the named frame in the stderr trace vs the reference"});
+	w.finish(meta, &opts.out);
+}
 
 pub fn run(opts: &Opts) {
-	let w = CaseWriter::new(&opts.out);
-	w.finish(serde_json::json!({"engine":"c17","cases":0,"rule":"stub"}), &opts.out);
+	match opts.engine.as_str() {
+		"c17lex" => run_lex(opts),
+		"c17cli" => run_cli(opts),
+		_ => run_loc(opts),
+	}
 }
